@@ -84,14 +84,14 @@ pub struct Vocab {
 
 const DICT: &[&str] = &[
     "foo", "bar", "baz", "--help", "--verbose", "-v", "add", "commit", "x", "y", "ab", "abc", "quux", "--all", "-", "status", "log",
-    "remote", "a", "b", "c", "--color", "push", "-n", "one", "two",
+    "remote", "a", "b", "c", "--color", "push", "-n", "one", "two", "a:b:c", "k=v=w", "u@h:p",
 ];
 const DICT_SPECIAL: &[&str] = &[
     "a$b", "`x`", "say\"hi\"", "back\\slash", "trail\\", "$HOME", "$(id)", "star*", "q?", "[a-z]", "~", "wh!", "a&b", "x;y", "{b}",
     "(p)", "a|b", "<lt>", "it's", "%d", "a#b", "...", "v1.2", "\\$x", "\\\\", "\\\"", "$", "`",
 ];
-const WORD_PREFIXES: &[&str] = &["--color=", "--opt=", "-o", "k=", "--x=", ":", "p/", "+"];
-const WORD_VALUES: &[&str] = &["always", "never", "auto", "on", "off", "1", "2", "red", "blue", "v", "w", ",", "%file"];
+const WORD_PREFIXES: &[&str] = &["--color=", "--opt=", "-o", "k=", "--x=", ":", "p/", "+", "--kv=key=", "h:p:"];
+const WORD_VALUES: &[&str] = &["always", "never", "auto", "on", "off", "1", "2", "red", "blue", "v", "w", ",", "%file", "x=y", "t:s"];
 const DESCRS: &[&str] = &["d1", "d2", "the \"quoted\" one", "back\\slash descr", "d $x `y`"];
 
 fn exec_cmd_pool() -> Vec<CmdSpec> {
@@ -572,8 +572,9 @@ pub fn gen_clean(s: &mut Src, p: &Profile) -> (G, Vocab) {
     let ndefs = s.below(p.max_defs + 1);
     let mut g = Gen { s, p: p.clone(), v, budget: p.max_nodes, defs: vec![], avail_from: 0, spec_names: vec![], edged: Default::default(), prev_words: vec![] };
     // names and kinds first
+    let chain = ndefs >= 3 && g.s.chance(1, 3);
     for i in 0..ndefs {
-        let ws = g.s.chance(3, 8);
+        let ws = g.s.chance(3, 8) && !chain;
         g.defs.push((format!("{}{}", if ws { "W" } else { "N" }, i), ws));
     }
     // specialised names
@@ -606,7 +607,13 @@ pub fn gen_clean(s: &mut Src, p: &Profile) -> (G, Vocab) {
         let (name, ws) = g.defs[i].clone();
         let depth = g.s.range(1, p.max_depth.min(3));
         g.budget = g.budget.max(6);
-        let body = if ws { g.closed_group(depth) } else { g.top(depth) };
+        let mut body = if ws { g.closed_group(depth) } else { g.top(depth) };
+        if !ws && chain {
+            // a chain of definitions: each one refers to the next non-word definition
+            if let Some((next, _)) = g.defs.iter().skip(i + 1).find(|(_, w)| !*w).cloned() {
+                body = if g.s.bool() { E::Seq(vec![body, E::Nt(next)]) } else { E::Alt(vec![E::Nt(next), E::Seq(vec![lit("lnk"), body])]) };
+            }
+        }
         if ws && (g.lit_like(&body) || matches!(body, E::Word(_))) {
             g.edged.insert(name.clone());
         }
@@ -618,7 +625,12 @@ pub fn gen_clean(s: &mut Src, p: &Profile) -> (G, Vocab) {
     for _ in 0..nvar {
         let depth = g.s.range(1, p.max_depth);
         g.budget = g.budget.max(p.max_nodes / nvar);
-        let e = g.top(depth);
+        let mut e = g.top(depth);
+        if chain && stmts.is_empty() {
+            // the chain of definitions is used: its head is referenced from the first call variant
+            let head = g.defs[0].0.clone();
+            e = if g.s.bool() { E::Seq(vec![E::Nt(head), e]) } else { E::Alt(vec![e, E::Nt(head)]) };
+        }
         stmts.push(Stmt::Call { name: "cmd".to_string(), e });
     }
     // shuffle definitions among the statements (statement order of call variants is kept)
